@@ -69,7 +69,7 @@ def run_c32(ctx):
     pid, quick = "C32", ctx.quick
     # 1. design level (background): transcription satisfies the contract
     mc_bg = _Bg(lambda: ctx.tlc_must_hold(SPEC, "MC_Plan.cfg" if quick else "MC_Plan_t.cfg", module="MC_Plan",
-                                          timeout=900 if quick else 3000, workers=2 if quick else 4))
+                                          timeout=900 if quick else 5400, workers=2 if quick else 4))
     # 2. inputs: every small one from TLC + seeded random large ones
     gen = ctx.tlc(SPEC, "Gen_Plan.cfg" if quick else "Gen_Plan_t.cfg", module="Gen_Plan", deadlock_check=False,
                   timeout=900 if quick else 5400, workers=2)
